@@ -198,13 +198,32 @@ std::vector<std::string> all_profiles()
     return {"tracks", "crates", "members", "mixed"};
 }
 
-Plan generate_plan(const std::string& profile, uint64_t seed)
+Plan generate_plan(const std::string& profile_in, uint64_t seed)
 {
     Plan p;
     p.seed = seed;
     Rng r(seed);
     common_config(p, r);
-    p.cfg.profile = profile;
+    p.cfg.profile = profile_in;
+    // profile = base[2][_disk|_pure]
+    std::string profile = profile_in;
+    bool disk = false, pure = false, only_v2 = false;
+    auto strip = [&](const std::string& suf) {
+        if (profile.size() > suf.size() &&
+            profile.compare(profile.size() - suf.size(), suf.size(), suf) == 0)
+        {
+            profile.erase(profile.size() - suf.size());
+            return true;
+        }
+        return false;
+    };
+    disk = strip("_disk");
+    pure = strip("_pure");
+    only_v2 = strip("2");
+    if (only_v2)
+        p.cfg.schema = 11 + (int)r.below(7);
+    if (disk)
+        p.cfg.on_disk = true;
     if (profile == "tracks")
         gen_tracks(p, r);
     else if (profile == "crates")
@@ -214,7 +233,20 @@ Plan generate_plan(const std::string& profile, uint64_t seed)
     else if (profile == "mixed")
         gen_mixed(p, r);
     else
-        throw std::runtime_error("unknown profile " + profile);
+        throw std::runtime_error("unknown profile " + profile_in);
+    if (disk)
+    {
+        p.cfg.checks |= CK_RELOAD;
+        // close and reload at seeded prefixes
+        int extra = 1 + (int)r.below(3);
+        for (int i = 0; i < extra; ++i)
+        {
+            size_t pos = 1 + r.below(p.steps.size());
+            p.steps.insert(p.steps.begin() + (long)pos, mk("reload", r, 1, 1));
+        }
+    }
+    if (pure)
+        p.cfg.checks |= CK_PURITY;
     return p;
 }
 
